@@ -17,7 +17,7 @@ EXPLANATION = (
     'user callback; R04.g crux-provided futures keep the poll\'s waker; R04.h done / event / notify_shell / request_from_shell / '
     'stream_from_shell make exactly the one context call they stand for, on every path, with their own argument; R04.i every task leaving a command wakes its join handles. '
     'Equivalence to the reference semantics, the algebraic laws and the behaviour of then_request/then_stream under every resolution '
-    'order quantify over expressions x schedules and are NOT decided. R04.j a hosted command returns Pending only after both output queues were found empty and ends only when done (shared with C07 R07.e).')
+    'order quantify over expressions x schedules and are NOT decided. R04.j a hosted command returns Pending only after both output queues were found empty and ends only when done (shared with C07 R07.e). R04.l each chaining method is built on the adaptor that gives its documented order, judged over its whole family (body, closures, builder functions it calls): a request chained to a request or to a stream goes through a sequential stage (`then`) and no concurrent or flattening adaptor; streams chained to a stream are flattened concurrently (`flatten_unordered`) and never serially.')
 
 HOST = 'crux_core::command::stream::CommandStreamExt::host'
 POLL = 'core::future::future::Future::poll'
@@ -136,6 +136,47 @@ def check_builders(rep, core):
                    'context (item: %s, chained: %s, ctx: %s, returned: %s, once: %s)' % (f.path, item_ok, chained, ctx_ok, returned, once))
     if n < 3:
         rep.bad('R04.f', 'sites', 'expected at least 3 stage closures (then_request / then_stream), found %d' % n)
+
+
+# what a futures adaptor does to the order in which a stage's work runs
+SEQUENTIAL_STAGE = {'then', 'and_then', 'or_else'}                      # the stage of item n finishes before item n+1 is taken
+CONCURRENT = {'flatten_unordered', 'flat_map_unordered', 'buffer_unordered', 'buffered', 'for_each_concurrent', 'try_for_each_concurrent',
+              'try_buffer_unordered', 'try_buffered', 'try_flatten_unordered', 'select', 'select_all', 'select_with_strategy'}
+SERIAL_FLATTEN = {'flatten', 'flat_map', 'try_flatten', 'flatten_stream'}   # inner stream n is drained before inner stream n+1 is started
+# chaining method -> (one of these must be used, none of these may be used, what is lost otherwise)
+STAGE_ORDER = {
+    ('RequestBuilder', 'then_request'): (SEQUENTIAL_STAGE, CONCURRENT,
+                                         'the chained request starts only with the output of the first one'),
+    ('StreamBuilder', 'then_request'): (SEQUENTIAL_STAGE, CONCURRENT | SERIAL_FLATTEN,
+                                        'the request chained to item n is finished before item n+1 is taken, so results keep the order of the stream and only one chained request is outstanding'),
+    ('StreamBuilder', 'then_stream'): (CONCURRENT, SERIAL_FLATTEN | SEQUENTIAL_STAGE,
+                                       'the inner streams of all items run side by side: a long-lived inner stream does not hold back the items after it'),
+}
+
+
+def check_stage_order(rep, rid, core):
+    """the order in which a chain runs its stages is fixed by the adaptor the chaining method is built on; the family of a method is its
+    body, its closures and every function of the builder module it calls (so `then_request` implemented through `then_stream` counts as
+    using flatten_unordered)"""
+    from rules.common import CallGraph
+    cg = CallGraph([core])
+    for (adt, name), (need, forbid, why) in sorted(STAGE_ORDER.items()):
+        roots = [f for f in core.built if f.kind == 'AssocFn' and f.name == name and path_matches(f.assoc.get('self_adt'), 'crux_core::command::builder::' + adt)]
+        key = '%s::%s|stage-order' % (adt, name)
+        if len(roots) != 1:
+            rep.missing(rid, key)
+            continue
+        fam = cg.reach(roots, stop=lambda g: not g.npath.startswith('crux_core::command::builder::'))
+        used = {}
+        for g in fam:
+            for bb, t in g.calls():
+                if norm(t.get('ctrait') or '').startswith('futures_util::'):
+                    used.setdefault(last_seg(t['callee']), g.where(bb))
+        bad = sorted(set(used) & forbid)
+        have = sorted(set(used) & need)
+        rep.expect(rid, bool(have) and not bad, key, 'built on %s (adaptors in its family: %s)' % (have, sorted(used)),
+                   '%s::%s is no longer built on %s%s: %s' % (adt, name, '/'.join(sorted(need)),
+                                                             (' but on %s (%s)' % (bad, used[bad[0]])) if bad else ' (adaptors: %s)' % sorted(used), why))
 
 
 def fold_of_and(f):
@@ -324,6 +365,8 @@ def check(ctx, rep):
                    'Command::all does not spawn every item of its argument (iterator adapted or spawn outside the loop)')
     counts = c01.check_linear(rep, core, 'default', rid='R04.c', only=lambda f, ty: 'crux_core::command::Command<' in ty)
     check_builders(rep, core)
+    rep.rule('R04.l', 'each chaining method is built on the adaptor that gives its documented order: sequential for a chained request, concurrent for chained streams', floor=3)
+    check_stage_order(rep, 'R04.l', core)
     # R04.g: spawn/join/select inside a command rely on every crux-provided future keeping the waker of the current poll (shared with C05 R05.c)
     from rules.props import c05
     rep.rule('R04.g', 'every future crux provides to tasks (JoinHandle, shell requests and streams, timers) keeps the current poll\'s waker when it stays Pending', floor=5)
